@@ -121,13 +121,15 @@ Definition brush_ok_b (nx ny bs : nat) (brush : arr2) (l : list bool) : bool :=
   end.
 Definition plus3 : arr2 := [[false; true; false]; [true; true; true]; [false; true; false]].   (* circular_brush(3) *)
 Definition dot1 : arr2 := [[true]].                                                              (* circular_brush(1) *)
-Definition brush_shapes : list (nat * nat) := [(1, 1); (1, 3); (3, 1); (2, 2); (2, 3); (3, 2); (3, 3)].
 (* all_blists *)
 Fixpoint all_blists (n : nat) : list (list bool) :=
   match n with 0 => [[]] | S n' => flat_map (fun l => [false :: l; true :: l]) (all_blists n') end.
+(* (extent, brush) pairs of the bounded family: circular_brush(3) up to 3x3, circular_brush(1) up to 2x3 *)
+Definition brush_family : list (nat * nat * nat * arr2) :=
+  map (fun s => (fst s, snd s, 3, plus3)) [(1, 1); (1, 3); (3, 1); (2, 2); (2, 3); (3, 2); (3, 3)] ++
+  map (fun s => (fst s, snd s, 1, dot1)) [(1, 1); (1, 3); (2, 2); (2, 3)].
 Definition brush_bounded_b : bool :=
-  forallb (fun s => forallb (fun l => brush_ok_b (fst s) (snd s) 3 plus3 l && brush_ok_b (fst s) (snd s) 1 dot1 l)
-                            (all_blists (fst s * snd s))) brush_shapes.
+  forallb (fun f => let '(nx, ny, bs, brush) := f in forallb (brush_ok_b nx ny bs brush) (all_blists (nx * ny))) brush_family.
 
 Lemma in_all_blists2 l : In l (all_blists (length l)).
 Proof.
@@ -140,17 +142,14 @@ Proof. vm_compute. reflexivity. Qed.
 
 (* for every two-level design on the listed boxes and the brushes circular_brush(1), circular_brush(3): the loop stops,
    and a pixel is void (not in the result) exactly when it lies in the footprint of a void touch *)
-Lemma brush_bounded_spec nx ny l : In (nx, ny) brush_shapes -> length l = nx * ny ->
-  forall bs brush, (bs, brush) = (3, plus3) \/ (bs, brush) = (1, dot1) ->
+Lemma brush_bounded_spec nx ny bs brush l : In (nx, ny, bs, brush) brush_family -> length l = nx * ny ->
   exists tv ts, generator_touches nx ny bs brush (design_of ny l) (2 * (nx * ny) + 1) = Some (tv, ts) /\
     forall i j, i < nx -> j < ny -> get2 (dil nx ny bs brush tv) i j = negb (get2 (dil nx ny bs brush ts) i j).
 Proof.
-  intros Hs Hl bs brush Hb. pose proof brush_bounded_ok as H. unfold brush_bounded_b in H.
-  rewrite forallb_forall in H. specialize (H _ Hs). cbn [fst snd] in H. rewrite forallb_forall in H.
+  intros Hs Hl. pose proof brush_bounded_ok as H. unfold brush_bounded_b in H.
+  rewrite forallb_forall in H. specialize (H _ Hs). cbn beta iota in H. rewrite forallb_forall in H.
   specialize (H l). rewrite <- Hl in H. specialize (H (in_all_blists2 l)).
-  apply andb_true_iff in H. destruct H as [H3 H1].
-  assert (Hok : brush_ok_b nx ny bs brush l = true) by (destruct Hb as [E|E]; inversion E; subst; assumption).
-  unfold brush_ok_b in Hok. destruct (generator_touches nx ny bs brush (design_of ny l) (2 * (nx * ny) + 1)) as [[tv ts]|]; [|discriminate].
-  exists tv, ts. split; [reflexivity|]. intros i j Hi Hj. apply arr2_eqb_spec in Hok. rewrite <- Hok.
+  unfold brush_ok_b in H. destruct (generator_touches nx ny bs brush (design_of ny l) (2 * (nx * ny) + 1)) as [[tv ts]|]; [|discriminate].
+  exists tv, ts. split; [reflexivity|]. intros i j Hi Hj. apply arr2_eqb_spec in H. rewrite <- H.
   unfold bnot. rewrite get2_mk2_in by assumption. reflexivity.
 Qed.
